@@ -40,6 +40,7 @@ Definition entries : list (string * (sexp -> option sexp)) := [
   ("C01.universe", Universe.run_universe);
   ("C06.universe", Universe.run_universe);
   ("C06.lookups", Universe.run_lookups);
+  ("C06.prelookups", Universe.run_prelookups);
   ("C20.preds", Universe.run_preds);
   ("C11.universe", Universe.run_universe);
   ("C05.comments", Comments.run_comments);
